@@ -6,7 +6,9 @@ import "verif/mc/fw"
 
 type schedCfg struct{}
 
-func c03Bounds(tier string) map[string]any { return map[string]any{"note": "scheduler not compiled in (plain build)"} }
+func c03Bounds(tier string) map[string]any {
+	return map[string]any{"note": "scheduler not compiled in (plain build)"}
+}
 
 func c03GenSched(tier string, emit func(c03Case)) {}
 
